@@ -1,2 +1,107 @@
-(* C15 - placeholder while the proofs are being written *)
-From LW Require Import Base.Sx Model.Tomo.
+(* C15 — State tomography reconstructs the prepared state.
+   Statements only; every proof is [exact <lemma>] (Proofs/TomoStateP.v).
+
+   Scalars: any commutative *-ring [o] with an imaginary unit [ii], hh = 1/sqrt 2
+   (2*hh*hh = 1), inverses of units, decidable equality ([TomoRing], Base/QI2.v);
+   instances: Q(sqrt 2)(i) (Base/QI2.v, executable) and the complex numbers over
+   Coq's reals (Base/QI2R.v).  [req] is the list of measurement settings in the
+   order Python's list(set(...)) happened to produce. *)
+From Coq Require Import ZArith List Bool Arith Lia Permutation Reals QArith Qcanon.
+From LW Require Import Base.Sx Base.Num Base.Sums Base.Mat Base.QI2 Base.QI2R Model.Tomo Proofs.TomoStateP.
+Import ListNotations.
+Open Scope nat_scope.
+
+(* For every number of qubits n >= 1, every ordering of the required settings
+   and EVERY 2^n x 2^n matrix rho of unit trace (pure or mixed, entangled or
+   not): feeding StateTomography.process with the noiseless frequencies (Born
+   rule after the basis change of each requested setting, as dual-rail outcome
+   states) returns rho itself - in particular Hermitian with unit trace. *)
+Theorem C15_state_tomo_identity :
+  forall (K : Type) (o : ops K) (ii hh : K), TomoRing o ii hh ->
+  forall (n : nat) (req : list mstr) (rho : nat -> nat -> K),
+    1 <= n -> Permutation req (req_canonical n false) -> trace o (2 ^ n) rho = k1 o ->
+    exists R, st_tomography o ii hh n req rho = Ok R /\ meq (2 ^ n) R rho /\
+              trace o (2 ^ n) R = k1 o /\ (hermitian o (2 ^ n) rho -> hermitian o (2 ^ n) R).
+Proof. exact (fun K o ii hh TR => st_tomography_physical (TR:=TR)). Qed.
+Print Assumptions C15_state_tomo_identity.
+
+(* the same over the complex numbers (pairs of Coq reals), hh = 1/sqrt 2 *)
+Theorem C15_state_tomo_identity_complex :
+  forall (n : nat) (req : list mstr) (rho : nat -> nat -> R * R),
+    1 <= n -> Permutation req (req_canonical n false) -> trace tCops (2 ^ n) rho = (1%R, 0%R) ->
+    exists M, st_tomography tCops tC_i tC_h n req rho = Ok M /\ meq (2 ^ n) M rho.
+Proof. exact (st_tomography_identity (TR:=tC_tomo)). Qed.
+Print Assumptions C15_state_tomo_identity_complex.
+
+(* pure state: the result is the outer product of the (normalised) state vector
+   and state_fidelity against it is one.  scipy's sqrtm and abs are oracles;
+   assumed contract: sqrtm of a Hermitian idempotent d x d matrix (an orthogonal
+   projector, positive semi-definite) is that matrix; |1| = 1. *)
+Theorem C15_pure_state_fidelity_one :
+  forall (K : Type) (o : ops K) (ii hh : K), TomoRing o ii hh ->
+  forall (sqrtm : nat -> (nat -> nat -> K) -> nat -> nat -> K) (kabs : K -> K),
+    (forall d P, hermitian o d P -> meq d (mmul o d P P) P -> meq d (sqrtm d P) P) ->
+    kabs (k1 o) = k1 o ->
+  forall (n : nat) (req : list mstr) (psi : nat -> K),
+    1 <= n -> Permutation req (req_canonical n false) ->
+    sumn o (2 ^ n) (fun k => kmul o (psi k) (kconj o (psi k))) = k1 o ->
+    exists R, st_tomography o ii hh n req (density_from_state o psi) = Ok R /\
+              meq (2 ^ n) R (density_from_state o psi) /\
+              state_fidelity o sqrtm kabs (2 ^ n) (2 ^ n) R (density_from_state o psi) = Ok (k1 o).
+Proof. exact (fun K o ii hh TR => pure_state_fidelity_one (TR:=TR)). Qed.
+Print Assumptions C15_pure_state_fidelity_one.
+
+(* the callback receives exactly one circuit per required setting: 3^n of them,
+   pairwise distinct, exactly the strings over {X,Y,Z}; every full measurement
+   string (with I) is served by the setting obtained by I -> Z; the circuit of
+   setting s is the base circuit followed, for each qubit i, by the basis change
+   MEASUREMENT_MAPPING[s_i] on modes 2i, 2i+1 *)
+Theorem C15_settings_spec :
+  forall (K : Type) (o : ops K) (ii hh : K) (n : nat) (req : list mstr),
+    1 <= n -> Permutation req (req_canonical n false) ->
+    length req = 3 ^ n /\ NoDup req /\
+    (forall s, In s req <-> length s = n /\ Forall (fun g => In g [PX; PY; PZ]) s) /\
+    (forall c, In c (tomo_measurements n false) -> In (replIZ c) req) /\
+    st_circuits o ii hh n req = Ok (map (setting_components o ii hh) req) /\
+    (forall s, In s req -> length (setting_components o ii hh s) = n /\
+       forall i, i < n -> nth i (setting_components o ii hh s) (0, mid o) = (2 * i, meas_mat o ii hh (nth i s PZ))).
+Proof. exact (fun K => @settings_spec K). Qed.
+Print Assumptions C15_settings_spec.
+
+(* each basis change measures its Pauli: sum_z (+-1) M^+|z><z|M = P, for every
+   measurement string c (with I's) and its setting replIZ c, all n *)
+Theorem C15_basis_change_measures_pauli :
+  forall (K : Type) (o : ops K) (ii hh : K), TomoRing o ii hh ->
+  forall (c : mstr) (k l : nat), k < 2 ^ length c -> l < 2 ^ length c ->
+    sumn o (2 ^ length c) (fun z =>
+      kmul o (sg o (par c (bits (length c) z)))
+             (kmul o (kfold o (meas_mat o ii hh) (replIZ c) z k)
+                     (kconj o (kfold o (meas_mat o ii hh) (replIZ c) z l))))
+    = kfold o (pauli_mat o ii) c l k.
+Proof. exact (fun K o ii hh TR => basis_change_measures_pauli (TR:=TR)). Qed.
+Print Assumptions C15_basis_change_measures_pauli.
+
+(* ---- the hypotheses are satisfiable; the statement checked by computation ---- *)
+(* (|00> + i|11>)/sqrt 2 in Q(sqrt 2)(i): an entangled state with a complex phase *)
+Definition ex_psi (k : nat) : (Qc * Qc) * (Qc * Qc) :=
+  match k with
+  | 0 => qi2_h
+  | 3 => kmul qi2ops qi2_i qi2_h
+  | _ => k0 qi2ops
+  end.
+
+Example C15_example_hypotheses :
+  Permutation (rev (req_canonical 2 false)) (req_canonical 2 false) /\
+  sumn qi2ops (2 ^ 2) (fun k => kmul qi2ops (ex_psi k) (kconj qi2ops (ex_psi k))) = k1 qi2ops /\
+  trace qi2ops (2 ^ 2) (density_from_state qi2ops ex_psi) = k1 qi2ops.
+Proof.
+  split; [apply Permutation_sym, Permutation_rev|].
+  split; apply (proj1 (ui_eqb (o:=qi2ops) _ _)); vm_compute; reflexivity.
+Qed.
+
+Example C15_example_computed :
+  match st_tomography qi2ops qi2_i qi2_h 2 (rev (req_canonical 2 false)) (density_from_state qi2ops ex_psi) with
+  | Ok M => forallb (fun i => forallb (fun j => keqb qi2ops (M i j) (density_from_state qi2ops ex_psi i j)) (seq 0 4)) (seq 0 4)
+  | Err _ => false
+  end = true.
+Proof. vm_compute. reflexivity. Qed.
